@@ -3,6 +3,7 @@ package main
 import (
 	"context"
 	"fmt"
+	"github.com/brimdata/super/pkg/verifhook"
 
 	"verif/internal/gen"
 	"verif/internal/lk"
@@ -29,6 +30,9 @@ func c14Alphabet() []lk.Op {
 }
 
 func runC14(c *rt.Ctx) {
+	// released zngio buffers are overwritten (H1): lake code that keeps using a
+	// value after the reader has moved on reads garbage deterministically
+	verifhook.SetPoison(true)
 	c.Note("rule", "case = one lake history on a fresh in-memory lake (object-store or file semantics): exhaustive over all op sequences up to length L over a 9-op alphabet × 4 pool layouts, plus random histories (random pool key k/a.k/this, asc/desc, threshold 1 B…default, seek stride 1 B…default; loads with duplicate, mixed-type, null and missing keys); after every step the branch query multiset, the metadata listing, per-object count/key-range/sortedness, seek-index tiling and pool-key order of the scan (two handles, two parallelisms) are compared with the model; non-trivial = some load produced ≥2 objects and some delete-where rewrote an object partially; distinct by case id")
 	c.Note("assumptions", "pool keys are generated only from numbers, strings, null and missing, for which the harness has its own order (numbers numerically < strings < null/missing)\ndelete-where's reference semantics is a plain in-memory `where` in the sequential runtime")
 	alpha := c14Alphabet()
